@@ -199,9 +199,11 @@ def xml_to_tupletree_sax(xml_string, meaning, conn_id=None):
                     meaning, exc, xml_msg),
             conn_id=conn_id)
         raise pe.with_traceback(org_tb)  # ignore this call in traceback!
-    except LookupError as exc:
+    except (LookupError, ValueError) as exc:
         # The XML declaration names an encoding that is not known
-        # (e.g. "unknown encoding: foo")
+        # (e.g. "unknown encoding: foo"), or a multi-byte encoding the XML
+        # parser does not support (e.g. "shift_jis": "multi-byte encodings
+        # are not supported")
         raise XMLParseError(
             _format("XML parsing error encountered in {0}: {1}",
                     meaning, exc),
